@@ -12,7 +12,7 @@ META = {
 }
 
 LEAVES = 3
-NAMES = {1: "T1", 2: "T2", 3: "T3", 4: "A1", 5: "A2"}
+NAMES = {1: "T1", 2: "T2", 3: "T3", 4: "A1", 5: "A2", 6: "F1"}
 PRELUDE = "".join('let T%d = std.contract.from_predicate (fun v => std.trace "T%d" (v != %d)) in\n' % (i, i, i) for i in (1, 2, 3)) + \
     "let A1 = T1 in\nlet A2 = A1 in\n"
 BASE_BINDS = "(bind 1 (opq 1)) (bind 2 (opq 2)) (bind 3 (opq 3)) (bind 4 (var 1)) (bind 5 (var 4))"
@@ -86,15 +86,23 @@ def nickel_K(K):
     return "{%s}" % ", ".join(parts)
 
 
+_fresh = [1000]
+
+
 def sexp_K(K):
     if K[0] == "v":
+        if K[1] == 6:
+            _fresh[0] += 1
+            return "(opq %d)" % _fresh[0]
         return "(var %d)" % K[1]
     _, op, fs = K
     return "(rec %d %s)" % (op, " ".join("(fld %d %d 0 %d (pend %s) (val _))" % (k, o, p, " ".join(sexp_K(c) for c in cs)) for (k, o, p, cs) in fs))
 
 
-def operand(cs, shadow):
-    body = "{x%s}" % "".join(" | " + nickel_K(c) for c in cs)
+def operand(cs, shadow, field_alias=None):
+    """field_alias = leaf number: the record literal itself binds the contract alias F1 (a hidden field)"""
+    fa = "F1 | not_exported = T%d, " % field_alias if field_alias else ""
+    body = "{%sx%s}" % (fa, "".join(" | " + nickel_K(c) for c in cs))
     return "(let T1 = T2 in %s)" % body if shadow else body
 
 
@@ -116,8 +124,10 @@ def canon_V(v):
     return "#%d" % v
 
 
-def resolve(name, shadow):
+def resolve(name, shadow, field_alias=None):
     """leaf predicate denoted by a variable inside an operand"""
+    if name == 6:
+        return resolve(field_alias, shadow)     # the field's own definition `F1 = T<n>` is inside the operand's scope
     if name == 1:
         return 2 if shadow else 1
     if name in (4, 5):
@@ -125,10 +135,10 @@ def resolve(name, shadow):
     return name
 
 
-def attached(K, shadow, v, path, out):
+def attached(K, shadow, v, path, out, field_alias=None):
     """collect (path, leaf, value) obligations and structural failures of contract K on value v"""
     if K[0] == "v":
-        out.append((path, resolve(K[1], shadow), v))
+        out.append((path, resolve(K[1], shadow, field_alias), v))
         return
     _, op, fs = K
     if not isinstance(v, dict):
@@ -137,7 +147,7 @@ def attached(K, shadow, v, path, out):
     for (k, o, p, cs) in fs:
         if k in v:
             for c in cs:
-                attached(c, shadow, v[k], path + (k,), out)
+                attached(c, shadow, v[k], path + (k,), out, field_alias)
 
 
 def run(ck):
@@ -155,6 +165,10 @@ def run(ck):
         {"shape": {0: None}, "c1": [("r", 0, [(0, 0, 0, [("v", 1), ("v", 2)])])], "c2": [("r", 0, [(0, 0, 0, [("v", 1)])])], "s1": 0, "s2": 0, "v": {0: 2}},
         {"shape": None, "c1": [("v", 4)], "c2": [("v", 1)], "s1": 0, "s2": 1, "v": 2},   # alias vs shadowed name
         {"shape": None, "c1": [("v", 1)], "c2": [("v", 1)], "s1": 1, "s2": 0, "v": 2},
+        # field-bound alias F1 (= T2) while an outer `let F1 = T1` exists: T1 of the other operand must not be deduplicated
+        {"shape": None, "c1": [("v", 6)], "c2": [("v", 1)], "s1": 0, "s2": 0, "v": 1, "fa": (1, 2, 1)},
+        {"shape": None, "c1": [("v", 1)], "c2": [("v", 6)], "s1": 0, "s2": 0, "v": 1, "fa": (2, 2, 1)},
+        {"shape": None, "c1": [("v", 6)], "c2": [("v", 3)], "s1": 0, "s2": 0, "v": 3, "fa": (1, 1, 3)},
     ]
     for c in corpus:
         cases.append(c)
@@ -167,10 +181,29 @@ def run(ck):
             return [gen_rec(r, 1, shape) for _ in range(r.range(1, 2))]
         c1 = klist()
         c2 = [mutate(r, r.choice(c1)) for _ in range(r.range(1, 2))] if r.chance(3, 4) else klist()
-        cases.append({"shape": shape, "c1": c1, "c2": c2, "s1": int(r.chance(1, 5)), "s2": int(r.chance(1, 5)), "v": gen_value(r, shape)})
+        case = {"shape": shape, "c1": c1, "c2": c2, "s1": int(r.chance(1, 5)), "s2": int(r.chance(1, 5)), "v": gen_value(r, shape)}
+        if r.chance(1, 4):
+            # a field-bound alias in one operand: (operand, leaf the field is bound to, leaf of an outer `let F1` or 0)
+            which = r.range(1, 2)
+            case["fa"] = (which, r.range(1, 3), r.choice([0, 1, 2, 3]))
+            tgt = case["c1"] if which == 1 else case["c2"]
+            def inject(K):
+                if K[0] == "v":
+                    return ("v", 6) if r.chance(1, 2) else K
+                return ("r", K[1], [(k, o, p, [inject(c) for c in cs]) for (k, o, p, cs) in K[2]])
+            tgt[:] = [inject(K) for K in tgt]
+        cases.append(case)
     nk = core.harness_bin("nkeval")
     # ---- stream A: the deduplication decision (state level)
-    progsA = [PRELUDE + operand(c["c1"], c["s1"]) + " & " + operand(c["c2"], c["s2"]) for c in cases]
+    def fa_of(c, which):
+        fa = c.get("fa")
+        return fa[1] if fa and fa[0] == which else None
+
+    def prelude(c):
+        fa = c.get("fa")
+        return PRELUDE + ("let F1 = T%d in\n" % fa[2] if fa and fa[2] else "")
+
+    progsA = [prelude(c) + operand(c["c1"], c["s1"], fa_of(c, 1)) + " & " + operand(c["c2"], c["s2"], fa_of(c, 2)) for c in cases]
     modelA = ["(case (env %s%s) (env %s%s) (c1 %s) (c2 %s))" % (
         BASE_BINDS, " (bind 1 (var 2))" if c["s1"] else "", BASE_BINDS, " (bind 1 (var 2))" if c["s2"] else "",
         " ".join(sexp_K(k) for k in c["c1"]), " ".join(sexp_K(k) for k in c["c2"])) for c in cases]
@@ -180,10 +213,10 @@ def run(ck):
         ck.obligation("run:streamA", "internal", False, err[-300:] + err2[-300:])
     # ---- stream B: behaviour under export, dedup on/off, operands swapped
     def prog(c, swap):
-        a, b = operand(c["c1"], c["s1"]), operand(c["c2"], c["s2"])
+        a, b = operand(c["c1"], c["s1"], fa_of(c, 1)), operand(c["c2"], c["s2"], fa_of(c, 2))
         if swap:
             a, b = b, a
-        return PRELUDE + "(%s & %s) & {x = %s}" % (a, b, nickel_V(c["v"]))
+        return prelude(c) + "(%s & %s) & {x = %s}" % (a, b, nickel_V(c["v"]))
     runs = {}
     for name, flags, swap in (("dedup", "trace", False), ("nodedup", "trace,nodedup", False), ("swapped", "trace", True)):
         rc, o, err = core.run_sharded(nk, [], [flags + "\t" + m.esc(prog(c, swap)) for c in cases])
@@ -222,12 +255,13 @@ def run(ck):
         osw, tsw = split_trace(sw)
         obl = []
         for K in c["c1"]:
-            attached(K, c["s1"], c["v"], (), obl)
+            attached(K, c["s1"], c["v"], (), obl, fa_of(c, 1))
         for K in c["c2"]:
-            attached(K, c["s2"], c["v"], (), obl)
+            attached(K, c["s2"], c["v"], (), obl, fa_of(c, 2))
         viol = any(leaf == "shape" or v == leaf for (_, leaf, v) in obl)
         expect_ok = not viol
         ck.hist("outcome", "OK" if od.startswith("OK") else od.split()[1])
+        ck.hist("field_bound_alias", "yes" if c.get("fa") else "no")
         for x in (d, nd, sw):
             if m.crashed(x):
                 ck.violation("crash", "interpreter crashed", rep)
@@ -251,7 +285,7 @@ def run(ck):
         if i < 4:
             ck.sample({"program": prog(c, False), "pending_after_merge": a, "model": b, "export": d[:120]})
     ck.coverage["model_more_permissive_cases"] = nmore
-    ck.coverage["rule"] = "case = two lists of contracts for field x (leaf predicates T1..T3 with std.trace, aliases A1=T1, A2=A1, operands optionally under `let T1 = T2`, record contracts over a common shape with per-field contract lists, optional, default priority, open), the second list mostly a small mutation of the first (strict prefix, extension, flag flip, alias swap); plus a value of that shape. Non-trivial = record contracts or more than 2 contracts"
+    ck.coverage["rule"] = "case = two lists of contracts for field x (leaf predicates T1..T3 with std.trace, let-bound aliases A1=T1, A2=A1, operands optionally under `let T1 = T2`, a field-bound alias F1 (hidden field of one operand) optionally shadowing an outer `let F1`, record contracts over a common shape with per-field contract lists, optional, default priority, open), the second list mostly a small mutation of the first (strict prefix, extension, flag flip, alias swap); plus a value of that shape. Non-trivial = record contracts or more than 2 contracts"
     ck.trusted += ["extraction: ExtrOcamlBasic only", "harness bin nkeval (pending=, trace, nodedup)", "python reference outcome in checks/c04.py"]
 
 
